@@ -612,3 +612,22 @@ package proxy
 //@   modifies ghost:seeks
 //@   ensures [a_live_body_is_always_put_back_to_its_start] b != nil ==> seeks == old(seeks) + 1
 //@   at call (*bytes.Reader).Seek before [to_offset_zero_from_the_start] arg1 == 0 && arg2 == 0
+
+//@ unit upstream_match frames=on props=C04,C05 nilchecks=on filter=`proxy\.Proxy\)\.match$`
+//@ // which proxy block serves a request: one whose base path matches the request path and which does not exclude it, and
+//@ // among those the one with the longest base path (the most specific block); none only when no block qualifies
+//@ extern invoke:(github.com/tmpim/casket/caskethttp/proxy.Upstream).From
+//@   pure
+//@ extern invoke:(github.com/tmpim/casket/caskethttp/proxy.Upstream).AllowedPath
+//@   pure
+//@ extern (github.com/tmpim/casket/caskethttp/httpserver.Path).Matches
+//@   pure
+//@ define okUp(k int) bool = httpserver.Path(r.URL.Path).Matches(p.Upstreams[k].From()) && p.Upstreams[k].AllowedPath(r.URL.Path)
+//@ func (Proxy).match
+//@   requires r != nil && r.URL != nil && forall(k, 0, len(p.Upstreams), p.Upstreams[k] != nil)
+//@   ensures [a_block_that_matches_and_allows_the_path] result != nil ==> exists(k, 0, len(p.Upstreams), result == p.Upstreams[k] && okUp(k))
+//@   ensures [the_most_specific_one] forall(k, 0, len(p.Upstreams), (okUp(k) && len(p.Upstreams[k].From()) > 0) ==> (result != nil && len(result.From()) >= len(p.Upstreams[k].From())))
+//@   loop 1 invariant 0 <= #i && #i <= len(p.Upstreams) && longestMatch >= 0
+//@   loop 1 invariant u != nil ==> (exists(k, 0, #i, u == p.Upstreams[k] && okUp(k)) && longestMatch == len(u.From()))
+//@   loop 1 invariant u == nil ==> longestMatch == 0
+//@   loop 1 invariant forall(k, 0, #i, okUp(k) ==> longestMatch >= len(p.Upstreams[k].From()))
